@@ -65,6 +65,7 @@ type Exec struct {
 	MaxSteps   int
 	Notes      []string
 	coro       *coroSched
+	pendingBinds []Val
 }
 
 func NewExec(p *Program, fn *ssa.Function, mode Mode) *Exec {
@@ -225,6 +226,11 @@ func (x *Exec) getT(st *State, v ssa.Value) *T {
 	switch r := x.get(st, v).(type) {
 	case VT:
 		return r.T
+	case VAddr:
+		if p, ok := addrToPtr(r); ok {
+			return p.T
+		}
+		x.fail("interior pointer %s used as a first-class value (outside the supported subset)", v.Name())
 	default:
 		x.fail("expected scalar for %s, got %T", v.Name(), r)
 	}
@@ -773,7 +779,7 @@ func (x *Exec) doUnOp(st *State, ins *ssa.UnOp) {
 	case token.SUB:
 		if isFloat(ins.Type()) {
 			f := x.get(st, ins.X).(VFlt)
-			x.set(st, ins, VFlt{term.Neg(f.N), f.D})
+			x.set(st, ins, VFlt{N: term.Neg(f.N), D: f.D})
 			return
 		}
 		v := x.getT(st, ins.X)
@@ -982,8 +988,14 @@ func (x *Exec) makeIface(st *State, v Val, from, to types.Type) Val {
 			return VIface{tag, a.T, to}
 		}
 	}
-	// box the value
-	box := x.allocRef(st)
+	// box the value: the box identity is a function of the contents, so that interface
+	// equality is value equality (as in Go) and no allocation is involved
+	in := flatten(v)
+	sorts := make([]*term.Sort, len(in))
+	for i, t := range in {
+		sorts[i] = t.Sort
+	}
+	box := term.App(term.DeclareFun("box!"+typeKey(from), sorts, term.Int), in...)
 	x.storeAt(st, "b:"+typeKey(from), "", from, box, nil, v)
 	return VIface{tag, box, to}
 }
@@ -1044,4 +1056,19 @@ func closed(t *T) bool {
 		return true
 	}
 	return rec(t, map[*T]bool{})
+}
+
+// addrToPtr converts an address to a first-class pointer when it designates a whole heap object
+// (or its first embedded struct, which shares the reference).
+func addrToPtr(a VAddr) (VT, bool) {
+	if a.Alloc != nil || a.Ref == nil || a.Idx != nil {
+		return VT{}, false
+	}
+	if a.Path == "" {
+		return VT{a.Ref, types.NewPointer(a.Ty)}, true
+	}
+	if _, ok := embedCanon[a.Class+a.Path]; ok {
+		return VT{a.Ref, types.NewPointer(a.Ty)}, true
+	}
+	return VT{}, false
 }
